@@ -19,7 +19,8 @@ func init() {
 			`R05.2 every FILE/CLOSED_FILE Wound literal has Start <= End by construction (Start zero, End = Start + block size, or an ordering guard on the same two operands); ` +
 			`R05.3 after a successful copy a comparison of the copied byte count with file.Size controls a FILE wound for both 'shorter' and 'longer'; ` +
 			`R05.4 the aggregator never loses a wound: on every path through its loop body the incoming wound is kept, merged or forwarded, the pending wound is forwarded before it is replaced, and flushed before close; ` +
-			`R05.5 the dir / symlink / file passes contain the deviation tests the property enumerates, each controlling a wound emission. ` +
+			`R05.5 the dir / symlink / file passes contain the deviation tests the property enumerates, each controlling a wound emission; ` +
+			`R05.6 every success return of the per-file check has passed a FILE wound emission or the copy of the file into the validating writer (no shortcut declares content valid unseen). ` +
 			`NOT decided: that wounds cover every differing offset (block-size arithmetic, drip boundaries), interplay of last-block and size checks.`,
 		Assumptions: []string{"wound emission sites are sends (plain or in a select) on ValidatorContext.Wounds, directly or through a local closure that sends unconditionally"},
 		Run:         runC05,
@@ -118,6 +119,7 @@ func runC05(c *core.Ctx) {
 	c.Rule("R05.3", "size mismatch after a successful copy controls a FILE wound, both directions")
 	c.Rule("R05.4", "aggregation loses no wound")
 	c.Rule("R05.5", "classification table: each enumerated deviation test controls a wound emission")
+	c.Rule("R05.6", "no file is passed unseen")
 	kinds := woundKinds(c.P)
 	if len(kinds) < 4 {
 		c.Missing("R05", "pwr.WoundKind_*", "wound kind constants not found")
@@ -523,6 +525,34 @@ func runC05(c *core.Ctx) {
 		}
 	}
 	c.Floor("R05.5", "wound emission sites", len(sites), 3)
+
+	// ---- R05.6: the per-file check says "nothing to report" only after the content went through the validating
+	// writer: every success return has passed a FILE wound emission or the copy into the validator
+	{
+		isCopy := callTo("io.Copy", "io.CopyBuffer", "io.CopyN")
+		nPF := 0
+		for _, f := range all {
+			if firstInstr(f, isCopy) == nil {
+				continue
+			}
+			isEm := func(x ssa.Instruction) bool {
+				for _, st := range sites {
+					if st.fn == f && st.in == x && st.kind == kinds["FILE"] {
+						return true
+					}
+				}
+				return false
+			}
+			for _, rs := range successReturns(f) {
+				nPF++
+				p := core.FindPath(f, nil, isInstr(rs.Ret), anyOf(isEm, isCopy))
+				c.Check(p == nil, "R05.6", core.FnName(f), "a file is passed only after a wound or a full pass through the validator", core.InstrPos(rs.Ret),
+					"every path to this success return emits a FILE wound or copies the file into the validating writer",
+					"the per-file check can return success without having emitted a wound and without having copied the file through the validating writer: some file content is declared valid unseen").Path = c.P.PathStrings(p)
+			}
+		}
+		c.Floor("R05.6", "success returns of the per-file check", nPF, 1)
+	}
 	c.Stats["R05.5.deviation_tests"] = nTok
 
 	// ---- R05.4 (on the naive SSA form: the pending wound is a variable with loads and stores whether or
@@ -728,7 +758,8 @@ func isBlockSizeValue(v ssa.Value) bool {
 // guardTokens classifies a branch outcome by the API results it tests.
 func guardTokens(g core.Guard) []string {
 	var out []string
-	originCall := func(v ssa.Value) string {
+	var originCall func(v ssa.Value) string
+	originCall = func(v ssa.Value) string {
 		for _, o := range core.Origins(v) {
 			if ex, ok := o.(*ssa.Extract); ok {
 				if cl, ok := ex.Tuple.(*ssa.Call); ok {
@@ -736,7 +767,12 @@ func guardTokens(g core.Guard) []string {
 				}
 			}
 			if cl, ok := o.(*ssa.Call); ok {
-				return core.CalleeName(cl)
+				n := core.CalleeName(cl)
+				// the cause of an error is that error, as far as its origin goes
+				if (n == "github.com/pkg/errors.Cause" || n == "errors.Unwrap") && len(cl.Call.Args) == 1 {
+					return originCall(cl.Call.Args[0])
+				}
+				return n
 			}
 		}
 		return ""
